@@ -87,6 +87,14 @@ PROP(C10) __CPROVER_ensures((OK && g_eval_n == 1 && (V_IS(A1, LITERAL) || V_IS(A
 PROP(C10) __CPROVER_ensures((OK && g_eval_n == 1 && (V_IS(A1, INTEGER) || V_IS(A1, NUMERIC)) && !V_ISNULL(A1)) ==> (!V_ISNULL(RET) && (RET->_value.i & 0xff) == 1))
 PROP(C10) __CPROVER_ensures((OK && g_eval_n == 1 && V_ISNULL(A1)) ==> (!V_ISNULL(RET) && (RET->_value.i & 0xff) == 0))
 #endif
+#ifdef BUILTIN_IS_MOD
+/* C03: mod(a, b) on two integers is the remainder of the division truncated toward zero, for every non-zero divisor (mod(x, -1) is 0, also for
+ * the smallest integer); a zero divisor is DIVIDE_BY_ZERO */
+/* (the value of % itself is the machine's: this clause is decided with % uninterpreted on both sides, like the operator's, see arith.h) */
+PROP(C03, UF) __CPROVER_ensures((g_eval_n == 2 && V_IS(A1, INTEGER) && !V_ISNULL(A1) && V_IS(A2, INTEGER) && !V_ISNULL(A2) && V_I(A2) != 0) ==> (OK && V_IS(RET, INTEGER) && !V_ISNULL(RET) && V_I(RET) == SPEC_MOD(V_I(A1), V_I(A2))))
+PROP(C03) __CPROVER_ensures((g_eval_n == 2 && V_IS(A1, INTEGER) && !V_ISNULL(A1) && V_IS(A2, INTEGER) && !V_ISNULL(A2) && V_I(A2) == -1) ==> (OK && V_IS(RET, INTEGER) && !V_ISNULL(RET) && V_I(RET) == 0))
+PROP(C03) __CPROVER_ensures((g_eval_n == 2 && V_IS(A1, INTEGER) && !V_ISNULL(A1) && V_IS(A2, INTEGER) && !V_ISNULL(A2) && V_I(A2) == 0) ==> THROWN_RT(EXC_RT_DIVIDE_BY_ZERO))
+#endif
 #ifdef BUILTIN_IS_INT
 /* C03 / C10: int(x).  A decimal (or the real part of a complex) converts exactly when it lies in [-2^63, 2^63) -- truncated
  * toward zero -- and is OUT_OF_RANGE otherwise (2^63 itself and NaN included); an integer is handed through; a boolean is 0 / 1;
